@@ -33,6 +33,17 @@
 //!                                            after crash + recover_from_wal() + recover(), get_pending_decisions contradicts a decision
 //!                                            announced before the crash
 //!   tensor_chain.distributed_tx.coordinator/wal_restart_restores_commit_decided_tx_as_aborting
+//!   tensor_chain.distributed_tx.coordinator/{timeout,vote,cross_shard,}_abort_not_sent_to_prepared_participant
+//!                                            (`settle`: every ABORT in the pool of a transaction whose only decision is abort was delivered) a
+//!                                            participant is still in get_awaiting_decision / named in the lock table and no ABORT addressed to it exists
+//!   tensor_chain.distributed_tx.participant/abort_delivered_but_tx_still_prepared   same, but an ABORT addressed to it was delivered
+//!   tensor_chain.distributed_tx.coordinator/aborted_tx_blocks_later_tx_abort_never_sent | participant/aborted_tx_blocks_later_tx_after_abort_delivery
+//!                                            a PREPARE was refused with CONFLICT naming a transaction whose only decision is abort and to whose
+//!                                            participant no ABORT was ever addressed / an ABORT was delivered after its last PREPARE there
+//! Timeout aborts.  `directed_timeout_abort()` (run first) is the history "T0's PREPARE reaches every shard, one YES vote is delayed past the
+//! coordinator's timeout / lost / delivered after the abort deliveries; sweep; `settle`; a loss-free T1 on the same keys must commit everywhere"
+//! in its variants over 2 and 3 shards, written against the real pool (`Script`); `timeout-abort-schedules` draws the same shape at random,
+//! and every random schedule of the other streams ends with `settle` (Lean: Settle.lean, PropsSettle.lean).
 //! After a model-vs-implementation disagreement, and after a first monitor hit, the rest of the script
 //! still runs on the REAL objects with every monitor armed (each class is reported once per script).
 //!
